@@ -28,10 +28,10 @@ ASSUMPTIONS = ['vt/ref/quad.py bracket/quadrature; "floating-point resolution of
 TIERS = {
     'quick': {'shards': 14, 'random': 3000, 'timeout': 900, 'min_cases': 2000, 'max_timeouts': 0,
               'require_branches': ['scale>=1e4', 'scale<=1e-2', 'kind:path', 'kind:Arc', 'kind:CubicBezier',
-                                   'kind:QuadraticBezier', 'kind:Line', 's:out-of-range', 's:segment-boundary']},
+                                   'kind:QuadraticBezier', 'kind:Line', 's:out-of-range', 's:segment-boundary', 'path:retraced', 'seg:A:nearly-circular']},
     'thorough': {'shards': 14, 'random': 100000, 'timeout': 3400, 'min_cases': 50000, 'max_timeouts': 0,
                  'require_branches': ['scale>=1e4', 'scale<=1e-2', 'kind:path', 'kind:Arc', 'kind:CubicBezier',
-                                      'kind:QuadraticBezier', 'kind:Line', 's:out-of-range', 's:segment-boundary']},
+                                      'kind:QuadraticBezier', 'kind:Line', 's:out-of-range', 's:segment-boundary', 'path:retraced', 'seg:A:nearly-circular']},
 }
 CASE_TIMEOUT = 40
 EPS = gen.EPS
@@ -181,18 +181,40 @@ def cases(ctx):
                     ctrl = [p() for _ in range({'L': 0, 'Q': 1, 'C': 2}[k])]
                     specs.append([k] + [[z.real, z.imag] for z in [pt] + ctrl + [e]])
                 pt = e
-            yield {'kind': 'path', 'segs': specs, 'seed': rng.randrange(1 << 30), 'scale': scale, 'cls': ['path']}
+            cls = ['path']
+            if rng.random() < 0.3:
+                # a path that retraces itself: equal-valued segments occur more than once (a loop run twice, or
+                # there-back-there), so "which segment" can only be answered by position, never by value
+                cls = ['path:retraced']
+                first = specs[0]
+                if first[0] == 'A':
+                    back = ['A', first[-1], first[2], first[3], first[4], not first[5], first[1]]
+                else:
+                    back = [first[0]] + first[:0:-1]
+                head = [first, back, first]
+                rest = specs[1:]
+                if rest:
+                    rest[0] = list(rest[0])
+                    rest[0][1] = first[-1]
+                specs = head + rest
+            yield {'kind': 'path', 'segs': specs, 'seed': rng.randrange(1 << 30), 'scale': scale, 'cls': cls}
         else:
             s0, e = p(), p()
             if e == s0:
                 e = s0 + scale
+            cls = ['seg:' + kind]
             if kind == 'A':
                 spec = ['A', [s0.real, s0.imag], [abs(e - s0) * rng.uniform(.4, 3), abs(e - s0) * rng.uniform(.4, 3)],
                         rng.uniform(-180, 180), rng.random() < .5, rng.random() < .5, [e.real, e.imag]]
+                if rng.random() < 0.3:
+                    # nearly, but not exactly, circular: the speed is nearly, but not exactly, constant
+                    r = spec[2][0]
+                    spec[2] = [r, r * (1 + rng.choice([-1, 1]) * 10.0 ** rng.uniform(-7.5, -3))]
+                    cls = ['seg:A:nearly-circular']
             else:
                 ctrl = [p() for _ in range({'L': 0, 'Q': 1, 'C': 2}[kind])]
                 spec = [kind] + [[z.real, z.imag] for z in [s0] + ctrl + [e]]
-            yield {'kind': 'seg', 'seg': spec, 'seed': rng.randrange(1 << 30), 'scale': scale, 'cls': ['seg:' + kind]}
+            yield {'kind': 'seg', 'seg': spec, 'seed': rng.randrange(1 << 30), 'scale': scale, 'cls': cls}
 
 
 def run_case(ctx, case):
@@ -200,6 +222,8 @@ def run_case(ctx, case):
     rng = random.Random(case['seed'])
     curve = gen.seg(case['seg']) if case['kind'] == 'seg' else gen.path(case['segs'])
     ctx.branch('kind:' + ('path' if case['kind'] == 'path' else type(curve).__name__))
+    if case['cls'][0] in ('path:retraced', 'seg:A:nearly-circular'):
+        ctx.branch(case['cls'][0])
     if case['scale'] >= 1e4:
         ctx.branch('scale>=1e4')
     if case['scale'] <= 1e-2:
